@@ -118,6 +118,27 @@ func genF4(g *fw.GenCtx, em *emitter) {
 	add("restart-in-functional-sub", map[string]string{"_decl": "sub rs BOOL { restart; return true; }\n", "recv": "if (rs()) { log \"x\"; }"}, "miss")
 	add("error-in-functional-sub", map[string]string{"_decl": "sub rs BOOL { error 601; return true; }\n", "recv": "if (rs()) { log \"x\"; }"}, "miss")
 	em.mark()
+	// status codes and reason phrases at and beyond the edges, written to the object of the scope; served as the process
+	// document and as the actual response (net/http refuses codes outside 100..999)
+	for _, sv := range []string{"0", "1", "99", "100", "101", "199", "204", "304", "599", "600", "999", "1000", "65536", "2147483647", "2147483648", "9223372036854775807", "-1", "-200"} {
+		for _, tg := range []struct{ scope, obj string }{{"fetch", "beresp"}, {"error", "obj"}, {"deliver", "resp"}, {"hit", "obj"}} {
+			for _, act := range []bool{false, true} {
+				acts := map[string]string{tg.scope: fmt.Sprintf("set %s.status = %s;\nset %s.response = \"R\";", tg.obj, sv, tg.obj)}
+				if strings.HasPrefix(sv, "-") {
+					acts[tg.scope] = fmt.Sprintf("declare local var.st INTEGER;\nset var.st = %s;\nset %s.status = var.st;", sv, tg.obj)
+				}
+				if tg.scope == "error" {
+					acts["recv"] = "error 601;"
+				}
+				e := Exec{Fam: "F4", Con: fmt.Sprintf("status/%s.status", tg.obj), Mode: "http", Main: renderLC(acts), Reqs: lcReqs("hit"), Bound: true, Tag: "lc:status", Act: act}
+				if act {
+					e.Con += "/actual-response"
+				}
+				em.add(e)
+			}
+		}
+	}
+	em.mark()
 	// every form inside a functional subroutine (directly, and nested in if / block / switch), called from every scope
 	for _, s := range lcScopes {
 		for _, f := range forms {
